@@ -34,6 +34,9 @@
 //! Real-node stream (`realnode` argument, see `realnode_case`): additionally the indexer's OutPoint rows must equal the
 //! node's COLUMN_CELL (`indexer-live-neq-node-live`) and the tips must agree (`tip-neq-node-tip`) after every sync.
 use crate::common::*;
+#[cfg(feature = "rich")]
+#[path = "c18_rich.rs"]
+mod rich;
 use ckb_indexer::verif::VerifIndexer;
 use ckb_indexer::{IndexerHandle, KeyPrefix, Value};
 use ckb_jsonrpc_types::{
@@ -880,6 +883,40 @@ impl Sim {
                     out.op(line, &format!("rawtxs {}", if v.is_empty() { "-".into() } else { v.join(",") }));
                 }
             }
+            "cells" | "cap" | "txs" if t[3] == "part" => {
+                // partial search mode: the key-value indexer answers `invalid params` (the rich-indexer supports it)
+                let q = ScriptSpec::parse(t[2]);
+                let mut key = self.search_key(t[1] == "lock", &q, false, None, false);
+                key.script_search_mode = Some(IndexerSearchMode::Partial);
+                let err = match t[0] {
+                    "cells" => self.handle().get_cells(key, IndexerOrder::Asc, 1u32.into(), None).is_err(),
+                    "cap" => self.handle().get_cells_capacity(key).is_err(),
+                    _ => self.handle().get_transactions(key, IndexerOrder::Asc, 1u32.into(), None).is_err(),
+                };
+                if !err {
+                    out.oracle_fail("partial-mode-accepted", line);
+                }
+                out.count("partial-mode-unsupported");
+                out.op(line, &format!("{} unsupported", t[0]));
+            }
+            "rtxs" => {
+                // get_transactions with a full filter: only `script` and `block_range` are supported here
+                let f = FilterSpec::parse(&t[7..13]);
+                if t[3] == "part" || f.slr.is_some() || f.data.is_some() || f.dlr.is_some() || f.cap.is_some() {
+                    let q = ScriptSpec::parse(t[2]);
+                    let mut key = self.search_key(t[1] == "lock", &q, t[3] == "exact", f.to_json(), t[6] == "g");
+                    if t[3] == "part" {
+                        key.script_search_mode = Some(IndexerSearchMode::Partial);
+                    }
+                    if self.handle().get_transactions(key, IndexerOrder::Asc, 1u32.into(), None).is_ok() {
+                        out.oracle_fail("unsupported-filter-accepted", line);
+                    }
+                    out.count("rtxs-unsupported");
+                    out.op(line, "txs unsupported");
+                    return;
+                }
+                self.exec_txs(out, line, &t, f.script.clone(), f.blk);
+            }
             "cells" => {
                 let lock = t[1] == "lock";
                 let q = ScriptSpec::parse(t[2]);
@@ -932,67 +969,9 @@ impl Sim {
                 out.op(line, &format!("cells {}", show_pages(&pages)));
             }
             "txs" => {
-                let lock = t[1] == "lock";
-                let q = ScriptSpec::parse(t[2]);
-                let exact = t[3] == "exact";
-                let desc = t[4] == "desc";
-                let limit: u32 = t[5].parse().expect("limit");
-                assert!(limit >= 1, "malformed: limit 0");
-                let group = t[6] == "g";
                 let fs = parse_opt_script(t[7]);
                 let blk = parse_range(t[8]);
-                let fspec = FilterSpec { script: fs.clone(), blk, ..Default::default() };
-                let mut pages: Vec<Vec<String>> = vec![];
-                let mut flat: Vec<String> = vec![];
-                let mut cursor: Option<JsonBytes> = None;
-                loop {
-                    let key = self.search_key(lock, &q, exact, if fs.is_some() || blk.is_some() { fspec.to_json() } else { None }, group);
-                    let r = self.handle().get_transactions(key, if desc { IndexerOrder::Desc } else { IndexerOrder::Asc }, limit.into(), cursor.clone()).expect("get_transactions");
-                    let mut page = vec![];
-                    for o in r.objects.iter() {
-                        match o {
-                            IndexerTx::Ungrouped(x) => {
-                                let id = self.tx_id.get(&Byte32::from_slice(x.tx_hash.as_bytes()).unwrap()).map(|x| x.to_string()).unwrap_or_else(|| "?".into());
-                                let s = format!("{}@{}.{}.{}.{}", id, u64::from(x.block_number), u32::from(x.tx_index), u32::from(x.io_index), if matches!(x.io_type, IndexerCellType::Input) { "i" } else { "o" });
-                                flat.push(s.clone());
-                                page.push(s);
-                            }
-                            IndexerTx::Grouped(x) => {
-                                let id = self.tx_id.get(&Byte32::from_slice(x.tx_hash.as_bytes()).unwrap()).map(|x| x.to_string()).unwrap_or_else(|| "?".into());
-                                let mut cells = vec![];
-                                for (ty, i) in x.cells.iter() {
-                                    let io = if matches!(ty, IndexerCellType::Input) { "i" } else { "o" };
-                                    cells.push(format!("{}{}", io, u32::from(*i)));
-                                    flat.push(format!("{}@{}.{}.{}.{}", id, u64::from(x.block_number), u32::from(x.tx_index), u32::from(*i), io));
-                                }
-                                page.push(format!("{}@{}.{}[{}]", id, u64::from(x.block_number), u32::from(x.tx_index), cells.join(";")));
-                            }
-                        }
-                    }
-                    let empty = page.is_empty();
-                    pages.push(page);
-                    if empty || pages.len() > 10_000 {
-                        break;
-                    }
-                    cursor = Some(r.last_cursor);
-                }
-                let st = replay_chain(&self.chain);
-                let want = |sem: Sem| -> Vec<String> { oracle_tx_rows(&st, lock, &q, exact, &fs, &blk, desc, sem).iter().map(show_tx_row).collect() };
-                if self.oracle_valid {
-                    for c in classify(&flat, &want, "txs-neq-chain-filter") {
-                        out.oracle_fail(c, &format!("{} got={:?} want={:?}", line, flat, want(SPEC)));
-                    }
-                    let n = pages.len();
-                    // full pages, then at most one partial page, then the empty page that ends the walk
-                    if pages.iter().enumerate().any(|(i, p)| if i + 2 < n { p.len() != limit as usize } else if i + 2 == n { p.is_empty() || p.len() > limit as usize } else { !p.is_empty() }) {
-                        out.oracle_fail("txs-pagination", &format!("{} pages={:?}", line, pages.iter().map(|p| p.len()).collect::<Vec<_>>()));
-                    }
-                }
-                if !flat.is_empty() {
-                    self.n_queries_nonempty += 1;
-                }
-                out.count(if group { "txs-grouped" } else { "txs-ungrouped" });
-                out.op(line, &format!("txs {}", show_pages(&pages)));
+                self.exec_txs(out, line, &t, fs, blk);
             }
             "cap" => {
                 let lock = t[1] == "lock";
@@ -1047,6 +1026,69 @@ impl Sim {
             }
             other => panic!("malformed op {}", other),
         }
+    }
+
+    /// `txs` (and `rtxs` with a filter the key-value indexer supports): get_transactions walked to the end
+    fn exec_txs(&mut self, out: &mut Out, line: &str, t: &[&str], fs: Option<ScriptSpec>, blk: Option<(u64, u64)>) {
+        let lock = t[1] == "lock";
+        let q = ScriptSpec::parse(t[2]);
+        let exact = t[3] == "exact";
+        let desc = t[4] == "desc";
+        let limit: u32 = t[5].parse().expect("limit");
+        assert!(limit >= 1, "malformed: limit 0");
+        let group = t[6] == "g";
+        let fspec = FilterSpec { script: fs.clone(), blk, ..Default::default() };
+        let mut pages: Vec<Vec<String>> = vec![];
+        let mut flat: Vec<String> = vec![];
+        let mut cursor: Option<JsonBytes> = None;
+        loop {
+            let key = self.search_key(lock, &q, exact, if fs.is_some() || blk.is_some() { fspec.to_json() } else { None }, group);
+            let r = self.handle().get_transactions(key, if desc { IndexerOrder::Desc } else { IndexerOrder::Asc }, limit.into(), cursor.clone()).expect("get_transactions");
+            let mut page = vec![];
+            for o in r.objects.iter() {
+                match o {
+                    IndexerTx::Ungrouped(x) => {
+                        let id = self.tx_id.get(&Byte32::from_slice(x.tx_hash.as_bytes()).unwrap()).map(|x| x.to_string()).unwrap_or_else(|| "?".into());
+                        let s = format!("{}@{}.{}.{}.{}", id, u64::from(x.block_number), u32::from(x.tx_index), u32::from(x.io_index), if matches!(x.io_type, IndexerCellType::Input) { "i" } else { "o" });
+                        flat.push(s.clone());
+                        page.push(s);
+                    }
+                    IndexerTx::Grouped(x) => {
+                        let id = self.tx_id.get(&Byte32::from_slice(x.tx_hash.as_bytes()).unwrap()).map(|x| x.to_string()).unwrap_or_else(|| "?".into());
+                        let mut cells = vec![];
+                        for (ty, i) in x.cells.iter() {
+                            let io = if matches!(ty, IndexerCellType::Input) { "i" } else { "o" };
+                            cells.push(format!("{}{}", io, u32::from(*i)));
+                            flat.push(format!("{}@{}.{}.{}.{}", id, u64::from(x.block_number), u32::from(x.tx_index), u32::from(*i), io));
+                        }
+                        page.push(format!("{}@{}.{}[{}]", id, u64::from(x.block_number), u32::from(x.tx_index), cells.join(";")));
+                    }
+                }
+            }
+            let empty = page.is_empty();
+            pages.push(page);
+            if empty || pages.len() > 10_000 {
+                break;
+            }
+            cursor = Some(r.last_cursor);
+        }
+        let st = replay_chain(&self.chain);
+        let want = |sem: Sem| -> Vec<String> { oracle_tx_rows(&st, lock, &q, exact, &fs, &blk, desc, sem).iter().map(show_tx_row).collect() };
+        if self.oracle_valid {
+            for c in classify(&flat, &want, "txs-neq-chain-filter") {
+                out.oracle_fail(c, &format!("{} got={:?} want={:?}", line, flat, want(SPEC)));
+            }
+            let n = pages.len();
+            // full pages, then at most one partial page, then the empty page that ends the walk
+            if pages.iter().enumerate().any(|(i, p)| if i + 2 < n { p.len() != limit as usize } else if i + 2 == n { p.is_empty() || p.len() > limit as usize } else { !p.is_empty() }) {
+                out.oracle_fail("txs-pagination", &format!("{} pages={:?}", line, pages.iter().map(|p| p.len()).collect::<Vec<_>>()));
+            }
+        }
+        if !flat.is_empty() {
+            self.n_queries_nonempty += 1;
+        }
+        out.count(if group { "txs-grouped" } else { "txs-ungrouped" });
+        out.op(line, &format!("txs {}", show_pages(&pages)));
     }
 
     /// the shared part of `append`: `block` is what the indexer gets (built from `spec` in the synthetic stream and in
@@ -1254,6 +1296,10 @@ struct Gen {
     force_inputs: Vec<(u64, u32)>,
     /// re-include orphaned transactions with probability 3/4 instead of 1/3
     prefer_orphans: bool,
+    /// (rich stream) inputs the index cannot resolve at ANY position of the input list, also several per transaction
+    unresolvable_anywhere: bool,
+    /// (rich stream) number of the first block of a case: the index starts late
+    start_number: u64,
 }
 
 fn script_pool(rng: &mut Rng, probe_known: bool) -> Vec<ScriptSpec> {
@@ -1277,7 +1323,7 @@ fn script_pool(rng: &mut Rng, probe_known: bool) -> Vec<ScriptSpec> {
 
 impl Gen {
     fn new(scripts: Vec<ScriptSpec>, probe_known: bool, max_code: u64) -> Gen {
-        Gen { next_tx: 1, next_block: 1, orphans: vec![], scripts, probe_known, max_code, reserved: BTreeSet::new(), force_inputs: vec![], prefer_orphans: false }
+        Gen { next_tx: 1, next_block: 1, orphans: vec![], scripts, probe_known, max_code, reserved: BTreeSet::new(), force_inputs: vec![], prefer_orphans: false, unresolvable_anywhere: false, start_number: 0 }
     }
     fn rand_output(&self, rng: &mut Rng) -> OutSpec {
         let lock = rng.pick(&self.scripts).clone();
@@ -1291,7 +1337,7 @@ impl Gen {
         OutSpec { lock, type_, cap: *rng.pick(&[0u64, 1, 100, 100, 250, 1000]), data }
     }
     fn gen_block(&mut self, rng: &mut Rng, sim: &Sim) -> BlockSpec {
-        let number = sim.chain.last().map(|b| b.number + 1).unwrap_or(0);
+        let number = sim.chain.last().map(|b| b.number + 1).unwrap_or(self.start_number);
         let st = replay_chain(&sim.chain);
         let mut avail: Vec<(u64, u32)> = st.live.keys().filter(|k| !self.reserved.contains(k)).cloned().collect();
         let forced: Vec<(u64, u32)> = std::mem::take(&mut self.force_inputs).into_iter().filter(|k| st.live.contains_key(k)).collect();
@@ -1342,6 +1388,13 @@ impl Gen {
             if rng.chance(1, 25) {
                 // an input the indexer cannot resolve (never seen transaction)
                 inputs.push((1_000_000 + self.next_tx, 0));
+            }
+            if self.unresolvable_anywhere && rng.chance(1, 3) {
+                // .. at any position, the first one included, and sometimes two of them
+                for j in 0..rng.range(1, 2) {
+                    let pos = rng.below(inputs.len() as u64 + 1) as usize;
+                    inputs.insert(pos, (2_000_000 + self.next_tx * 4 + j, rng.below(2) as u32));
+                }
             }
             let lo_out = if inputs.is_empty() { 1 } else { 0 };
             let n_out = rng.range(lo_out, 3);
@@ -2277,6 +2330,13 @@ pub fn run(opts: &Opts) {
     let _guard = RootGuard(root.clone());
     // the inputs on which the three known deviations show are always generated; `no-probe` leaves them out
     let probe_known = !opts.extra.iter().any(|s| s == "no-probe");
+    #[cfg(feature = "rich")]
+    if opts.extra.iter().any(|s| s == "rich") {
+        rich::run_rich(opts, &mut out, &mut rng, &root);
+        let _ = std::fs::remove_dir_all(&root);
+        out.finish(rich::RICH_RULE);
+        return;
+    }
     let mut sim = Sim::new(root.clone());
     if let Some(p) = &opts.replay {
         for line in read_replay_ops(p) {
